@@ -43,6 +43,7 @@ type PropConfig struct {
 	ReplayCases map[string]string `json:"replay_cases"` // func key -> comma separated replay case names
 	Explanation string   `json:"explanation"`
 	EffArchs []string    `json:"eff_archs"`  // additional GOARCH values for which package sm4 is analysed
+	EffOnly  string      `json:"eff_only"`   // when set: only write-effect obligations whose name contains this text (e.g. "/readonly:")
 	EffPkgs  []string    `json:"eff_pkgs"`   // packages whose functions get write-effect obligations (#eff contracts)
 	RingFuncs []string   `json:"ring_funcs"` // functions with #ring contracts (polynomial identities mod p)
 	CtRoots  []string    `json:"ct_roots"`   // functions with #ct contracts: roots of the secret-independence analysis
@@ -492,6 +493,9 @@ func cmdCheck(args []string) {
 			}
 		}
 		for _, o := range ea.Check(effPkgs) {
+			if pc.EffOnly != "" && !strings.Contains(o.Name, pc.EffOnly) {
+				continue
+			}
 			o.Name = apfx + o.Name
 			ne++
 			if o.OK {
